@@ -374,6 +374,7 @@ def run(ctx):
     ck.ob("C15-R3", "fancy_layout_interpreting::convert", "a-saved-mapping-reloads-as-exactly-one-mapping,in-place(conversion-pipeline-clauses-S2-S6)", not bad,
           detail=None if not bad else bad[0][:220])
     ck.analysed["conversion_clauses_rerun"] = len(sub.obligations)
+    r4_reader_lists(ctx, ck)
 
 
 def _absorb_src(ab):
@@ -393,3 +394,115 @@ def _is_empty_vec(t):
         return True
     # vec![] lowers to Vec::new(); vec![x..] to into_vec(box [..])
     return False
+
+
+# ---------------------------------------------------------------------------------------------
+# R4: the reader's list plumbing.  A saved mapping is four lists of key names; on reload every name must go through
+# parse_key_code (the only function that knows the digit spellings serde writes), and every list must come back in the
+# order it was written, split as "all but the last" ++ [last].
+LPF = "layout_parsing_formatting::"
+
+
+def _in_order_list_parser(ctx, fn, elem_parsers, arg_index=1):
+    """fn(xs) == [elem_parser(x) for x in xs] (forward, every element, only error exits), as a loop with push or as
+    xs.iter().map(|x| elem_parser(x)).collect()  ->  (ok, why)"""
+    from .. import ktloops
+    b = ctx.body(fn)
+    xs = T("param", arg_index, b.dbg.get(arg_index, ""))
+    loops = sorted(b.loops())
+    if len(loops) == 1:
+        il = ktloops.index_loop(b, loops[0])
+        if not (il.kind == "for-elements" and il.list_term == xs and il.complete and il.direction == "fwd"):
+            return False, "the loop does not visit every element of the list from the front"
+        from .c13s import _err_exit
+        if [p for p in il.break_paths if not _err_exit(p)]:
+            return False, "the loop can be left early without an error"
+        acc = None
+        for p in il.cont_paths:
+            calls = [e for e in p.events if e.kind == "call" and e.a in elem_parsers]
+            pushes = [e for e in p.events if e.kind == "call" and mir.method_name(e.a) == "push"]
+            if len(calls) != 1 or mir.strip(calls[0].b[0]) != il.elem or len(pushes) != 1:
+                return False, "an element is not parsed by %s and pushed exactly once" % "/".join(x.rsplit("::", 1)[-1] for x in elem_parsers)
+            v = pushes[0].b[1]
+            if not (v == T("okval", calls[0].c) or v == calls[0].c):
+                return False, "what is pushed is not the parsed element"
+            if [e for e in p.events if e.kind == "guard" and not (isinstance(e.a, tuple) and e.a[0] == "variantof")]:
+                return False, "an element is handled conditionally"
+            acc = mir.strip(pushes[0].b[0])
+        rets = [p for p in mir.walk_function(b) if p.outcome[0] == "return" and isinstance(p.outcome[1], tuple) and p.outcome[1][0] == "agg" and p.outcome[1][2] == "Ok"]
+        if not rets or any(mir.strip(p.outcome[1][3][0]) != acc for p in rets):
+            return False, "the accumulated vector is not what is returned"
+        return True, None
+    if not loops:
+        for p in mir.walk_function(b):
+            if p.outcome[0] != "return":
+                continue
+            r = p.outcome[1]
+            if isinstance(r, tuple) and r[0] == "call" and mir.method_name(r[1]) == "collect":
+                m_ = r[2][0]
+                if isinstance(m_, tuple) and m_[0] == "call" and mir.method_name(m_[1]) == "map" and m_[2][0] == T("iter", xs, "fwd") and isinstance(m_[2][1], tuple) and m_[2][1][0] == "closure":
+                    cps, cb = mir.walk_closure(ctx.body, m_[2][1], param_terms=[T("mapelem", xs)])
+                    outs = [q.outcome[1] for q in cps if q.outcome[0] == "return"]
+                    if len(outs) == 1 and isinstance(outs[0], tuple) and outs[0][0] == "call" and outs[0][1] in elem_parsers and mir.strip(outs[0][2][0]) == T("mapelem", xs):
+                        return True, None
+        return False, "neither an in-order loop nor iter().map(parse).collect()"
+    return False, "several loops"
+
+
+def r4_reader_lists(ctx, ck):
+    # (a) who may turn text into a KeyCode
+    callers = set()
+    for p in ctx.F.bodies:
+        if not p.startswith(LPF) or "::tests::" in p:
+            continue
+        for i, name, t in ctx.body(p).calls():
+            if name == FROMSTR:
+                callers.add(p.split("::{closure")[0])
+    ck.ob("C15-R4", "-", "key-names-become-KeyCodes-only-in-parse_key_code(the-one-place-that-knows-the-digit-spellings)", callers == {PARSE_KEY}, detail=str(sorted(callers)))
+    # (b) in-order list parsers
+    for fn, eps in ((LPF + "parse_from_modifiers", {LPF + "parse_from_modifier"}), (LPF + "parse_to_initial", {LPF + "parse_to_initial_elem"})):
+        ok, why = _in_order_list_parser(ctx, fn, eps)
+        ck.ob("C15-R4", fn, "list-read-back-in-written-order,element-by-element", ok, detail=why)
+    # element parsers reach parse_key_code with the element's own text
+    for fn in (LPF + "parse_from_modifier", LPF + "parse_to_initial_elem", LPF + "parse_modifier", LPF + "parse_single_to_text", LPF + "parse_from_key_text"):
+        b = ctx.body(fn)
+        names = {n for _, n, _ in b.calls()}
+        ck.ob("C15-R4", fn, "a-plain-key-name-is-parsed-by-parse_key_code", PARSE_KEY in names)
+    # absorbing: loop over the array, every string element through parse_modifier, in order
+    pa = ctx.body(LPF + "parse_absorbing")
+    from .. import ktloops
+    lp = sorted(pa.loops())
+    okab = False
+    why = "no loop"
+    if len(lp) == 1:
+        il = ktloops.index_loop(pa, lp[0])
+        from .c13s import _err_exit
+        okab = il.kind == "for-elements" and il.complete and il.direction == "fwd" and not [p for p in il.break_paths if not _err_exit(p)]
+        why = None if okab else "loop shape"
+        for p in il.cont_paths:
+            calls = [e for e in p.events if e.kind == "call" and e.a == LPF + "parse_modifier"]
+            pushes = [e for e in p.events if e.kind == "call" and mir.method_name(e.a) == "push"]
+            if len(calls) != 1 or len(pushes) != 1 or pushes[0].b[1] != T("okval", calls[0].c) or not any(isinstance(s_, tuple) and s_ == il.elem for s_ in mir.subterms(calls[0].b[0])):
+                okab, why = False, "an element is not parsed by parse_modifier and pushed exactly once"
+    ck.ob("C15-R4", pa.path, "absorbing-list-read-back-in-written-order,element-by-element", okab, detail=why)
+    # (c) splits: all-but-last ++ [last]
+    for fn, par, first, last in ((LPF + "parse_from", None, LPF + "parse_from_modifiers", LPF + "parse_from_key"),
+                                  (LPF + "parse_single_to_array", 1, LPF + "parse_to_initial", LPF + "parse_single_to_terminal")):
+        b = ctx.body(fn)
+        oks = []
+        for p in mir.walk_function(b):
+            c1 = [e for e in p.events if e.kind == "call" and e.a == first]
+            c2 = [e for e in p.events if e.kind == "call" and e.a == last]
+            if not c1:
+                continue
+            a = c1[0].b[0]
+            good = False
+            if isinstance(a, tuple) and a[0] == "index" and isinstance(a[2], tuple) and a[2][0] == "agg" and a[2][1] == "std::ops::Range":
+                xs = a[1]
+                lo, hi = a[2][3]
+                good = mir.const_int(lo) == 0 and hi == T("binop", "Sub", T("len", xs), T("const", T("int", 1, "usize")))
+                if good and c2:
+                    l_ = c2[0].b[0]
+                    good = isinstance(l_, tuple) and l_[0] == "index" and l_[1] == xs and l_[2] == hi
+            oks.append(good)
+        ck.ob("C15-R4", fn, "list-split-as-all-but-the-last++[last]", bool(oks) and all(oks), detail="%d paths" % len(oks))
